@@ -296,5 +296,31 @@ def rule_ty_sig(ctx):
             r.violate(f["path"], "unclassified-source", "hands out a strong Snapshot but is not one of the classified sources: "
                       "say why the cascade cannot destruct the referent inside the critical section (which stamp or count "
                       "records the access) and which rule checks it", "%s:%d" % (f["span"]["file"], f["span"]["line"]))
+    # references into the payload: a handle's accessor hands out a reference whose lifetime is the borrow of the handle (Rc) or
+    # the guard's `'g` (Snapshot) - never a lifetime that no input carries (`fn as_ref<'a>(&self) -> Option<&'a T>` compiles,
+    # because the body goes through a raw pointer, and lets safe code keep the reference after the last owner is gone)
+    import re as _re
+    nref = 0
+    for f in prog.items["fns"]:
+        if "Public" not in f["vis"] or not f["path"].startswith(("strong::", "weak::")) or "::test" in f["path"]:
+            continue
+        out = f["output"]
+        regs = set(_re.findall(r"&('(?:\^[0-9]+\.Named\(DefId\([^)]*\)\)|[A-Za-z_{}]+(?:/#[0-9]+)?))", out))
+        if not regs:
+            continue
+        nref += 1
+        ins = " ".join(f["inputs"])
+        ok = True
+        for rg in regs:
+            base = rg.split("/#")[0]
+            if base in ("'static", "'{erased}") or (rg not in ins and (base + "/#") not in ins and (base + " ") not in ins + " "):
+                ok = False
+        r.instance("%s: the reference it returns borrows from an input (%s)" % (f["path"], ", ".join(sorted(x.split("(")[0] for x in regs))), ok)
+        if not ok:
+            r.violate(f["path"], "unbounded-reference", "returns a reference whose lifetime is carried by no input (not the borrow "
+                      "of the handle, not the guard's): safe code can keep it after the handle - and the object - is gone",
+                      "%s:%d" % (f["span"]["file"], f["span"]["line"]))
+    if nref < 6 and not r.violations:
+        r.floor_failures.append("TY-SIG: found %d reference-returning accessors of the handle types, expected at least 6" % nref)
     r.require(n, 17, "snapshot-returning public functions")
     return r
